@@ -1,5 +1,7 @@
 #!/usr/bin/env python3
-"""One-off maintenance tool: (re)write the `locals` / `params` lines of every `fn` block of contracts/*.vspec from the CURRENT
+"""Maintenance tool (run on the pinned tree after editing sidecars); also records, on every `hint` line, how many times its
+anchor occurs in the pinned text (`of=N`), so that a changed count is noticed (gen.inject).
+One-off maintenance tool: (re)write the `locals` / `params` lines of every `fn` block of contracts/*.vspec from the CURRENT
 text of the functions (run on the pinned tree).  They let the generator follow a renamed local or parameter (gen.rename_map)."""
 import os, re, sys
 sys.path.insert(0, os.path.dirname(os.path.abspath(__file__)))
@@ -30,3 +32,31 @@ for f in sorted(os.listdir(os.path.join(V, 'contracts'))):
                 out.append('  locals ' + ' '.join(ls))
     open(path, 'w').write('\n'.join(out))
     print(f, 'ok')
+
+# second pass: anchor occurrence counts for hints (needs a full generation of both variants)
+import json
+for variant in ('main', 'hdrproof'):
+    os.environ['VERIF_VARIANT'] = variant
+    gen.HINT_COUNTS.clear()
+    gen.build('/dev/null')
+    counts = dict(gen.HINT_COUNTS)
+    for f in sorted(os.listdir(os.path.join(V, 'contracts'))):
+        if not f.endswith('.vspec'):
+            continue
+        path = os.path.join(V, 'contracts', f)
+        specs, _ = gen.parse_sidecar(path)
+        lines = open(path).read().split('\n')
+        out, cur, hi = [], None, 0
+        it = iter(specs)
+        for l in lines:
+            if re.match(r'fn \w+', l):
+                cur = next(it); hi = 0
+            m = re.match(r'  hint (before|after) ', l)
+            if m and cur is not None:
+                h = cur.hints[hi]; hi += 1
+                n = counts.get((cur.key, h['where'], h['anchor'], h['ord']))
+                if n is not None and (cur.extra.get('variant') in (None, {'main': 'assumed', 'hdrproof': 'proof'}[variant])):
+                    l = re.sub(r' of=\d+', '', l) + ' of=%d' % n
+            out.append(l)
+        open(path, 'w').write('\n'.join(out))
+print('hint counts written')
